@@ -22,19 +22,19 @@ CLAIMS = {
  "C02": dict(cat="exploration", tech="deterministic simulation: seeded single-corruption fault injection on the sender→receiver channel (bit flip / whole-component fill / truncate / extend per component; caller buffers of the wire length, the original length, misaligned, or still holding the untruncated ciphertext) with a byte-identity reference model",
    text="Seeded simulation of a sender and a receiver joined by a faulty channel: every sealed tuple is delivered untampered (must open to the original), with exactly one corruption of one of the listed kinds (must be rejected), and untampered again; the verdict expected is decided by byte identity with what was sealed. Sampling over suites × sender/receiver API forms × lengths × (component, bit) cells with measured cell coverage; not a proof.",
    note="MAC collisions (≤2^-100 per case) are ignored; X25519 secret/sender-public key bits are not in the fault set (clamping makes some flips void); key material comes from the simulated generator through hook H1."),
- "C03": dict(cat="exploration", tech="deterministic simulation of push/pull stream nodes with libsodium as lock-step reference replica; seeded histories with replay/skip/swap/foreign/wrong-AD/bit-flip deliveries and counter-wrap presets",
+ "C03": dict(cat="exploration", tech="deterministic simulation of push/pull stream nodes with libsodium as lock-step reference replica; seeded histories with replay/skip/swap/foreign/wrong-AD/bit-flip deliveries and counter-wrap presets, rollback of the pull state to a clone after a rejection, a second session re-using the first session's header variable",
    text="Seeded histories over push, rekey, in-order delivery and wrong deliveries, started from every counter class through hook H2, with libsodium's secretstream driven by the same history: ciphertext bytes, both (key, nonce) states and accept/reject verdicts are compared after every event, a rejected pull must leave the state unchanged, and once faults stop every remaining packet must be accepted in exactly the remaining number of steps.",
    note="trusts libsodium 1.0.18 as reference; histories are short (≤ ~24 events) and sampled, not enumerated."),
- "C04": dict(cat="exploration", tech="deterministic simulation: crash-freedom invariant of every receiving node under seeded channel/store faults (truncate to every length, extend, flip, splice, garbage, any tag byte, boundary values of the Ed25519 scalar/field arithmetic in either signature half, small-order keys), unwind + worker-death detection + allocation high-water mark",
+ "C04": dict(cat="exploration", tech="deterministic simulation: crash-freedom invariant of every receiving node under seeded channel/store faults (truncate to every length, extend, flip, splice, garbage, any tag byte, boundary values of the Ed25519 scalar/field arithmetic in either signature half, small-order keys, mis-sized caller buffers; on the nightly build also a fork with the key in locked memory and the opening call in the child), unwind + worker-death detection + allocation high-water mark",
    text="Every receiving entry point (box/secretbox/sealed-box openers and parsers, stream pull in both APIs, signature/MAC verifiers, password-hash string parse/verify/needs-rehash) is fed what a faulty channel or store delivers; each call must return, with no unwind, no dead worker process and no single allocation above 8×input+16 MiB. Built with overflow-checks on. Sampling, with every length 0…200 visited per receiver in the thorough tier.",
    note="only totality is judged, not accept/reject correctness; password-hash strings with m>1 MiB or t>4 are not handed to functions that would compute; string faults are segment-level, not fully grammar-directed."),
- "C08": dict(cat="exploration", tech="deterministic simulation of the reader that cuts a byte stream: seeded short-read / zero-length-read schedules driving init/update/final against the one-shot function over the same bytes (seeded patterns plus a small corpus of Poly1305 carry-vector operands), dirty output buffers, and incremental-vs-one-shot verdict parity on wrong / short / long codes; software and SIMD backends",
+ "C08": dict(cat="exploration", tech="deterministic simulation of the reader that cuts a byte stream: seeded short-read / zero-length-read schedules driving init/update/final against the one-shot function over the same bytes (seeded patterns plus a small corpus of Poly1305 carry-vector operands), dirty output buffers, and incremental-vs-one-shot verdict parity on wrong / short / long codes; an unrelated computation interleaved between reads, reads continued on another thread; software and SIMD backends",
    text="The only nondeterminism an incremental hash/MAC/signer meets is where the I/O layer cuts the stream. Seeded schedules (zero-length reads, dribble, block-aligned, off-by-one, top-up of the pending buffer, one huge piece) drive every incremental interface in both API flavours; Final is compared with the one-shot function over the bytes fed. The branch matrix (pending-buffer class × chunk class) is measured and its model-reachable cells are required probes. Sampling of schedules, not enumeration.",
    note="the one-shot function is the trusted reference (its own correctness is C07); incremental signing is compared with the single-update run and must verify incrementally."),
- "C11": dict(cat="exploration", tech="deterministic simulation with the OS random generator behind a seam (hook H1): per-call draw ledger + history oracle + independence inside one value; real-generator configuration; injected OS-generator failure (getrandom refused via seccomp in a forked child)",
+ "C11": dict(cat="exploration", tech="deterministic simulation with the OS random generator behind a seam (hook H1): per-call draw ledger + history oracle + independence inside one value; real-generator configuration; injected OS-generator failure (getrandom refused via seccomp in a forked child), fork and fresh-thread configurations, calls under a signal storm",
    text="All randomness goes through one seam. Under the simulated generator every randomised entry point must draw at least the documented number of bytes during the call and its random output must be (the documented image of) exactly those bytes; over each run's history no value repeats, none is all-zero and no byte position is constant. A per-call anomaly (fewer bytes drawn than documented, output not the image of the draw) becomes a violation only with sound evidence of staleness (a value of >=16 bytes that is all-zero or returned again by the next call). A second configuration runs the unhooked OsRng path with the history oracle only; a third injects failure of the OS generator: a call may fail or panic, but must not return an all-zero or repeated value.",
    note="the entry-point table is static (compiled from the source); an entry point added later is not covered until the table is extended."),
- "C14": dict(cat="exploration", tech="deterministic simulation of the protected-memory layer against the real kernel: libc mlock/munlock/mprotect/posix_memalign/free intercepted in-binary, seeded walks of the type-state graph, kernel view (/proc/self/maps, smaps, status, EFAULT probing) as oracle after every event",
+ "C14": dict(cat="exploration", tech="deterministic simulation of the protected-memory layer against the real kernel: libc mlock/munlock/mprotect/posix_memalign/free intercepted in-binary, seeded walks of the type-state graph, kernel view (/proc/self/maps, smaps incl. VM_LOCKED / VM_DONTCOPY, status, EFAULT probing) as oracle after every event; madvise / no-op mprotect refused while a handle is dropped",
    text="Seeded walks over constructors, lock/unlock/protect transitions, clone, resize, write, drop for both containers and the page-boundary length set; after every event the kernel's view of every live region (effective rights of every data page, VM_LOCKED, guard pages, contents, process VmLck) must equal the model's promised type state, and after the last drop nothing locked or protected may remain.",
    note="Linux, 4 KiB pages, /proc readable; nothing else in the worker locks memory; walks are sampled."),
  "C15": dict(cat="exploration", tech="deterministic simulation with the allocator boundary as seam: zero-filling posix_memalign/memalign and inspecting free/munmap defined in the simulator binary; seeded release-path walks (regions up to 2 MiB), also under lock-refusal plans, under mlockall, and with madvise / no-op mprotect refused while a handle is dropped",
@@ -43,7 +43,7 @@ CLAIMS = {
  "C17": dict(cat="exploration", tech="deterministic simulation: the C02/C03 single-corruption fault family plus forged boxes under small-order keys, with sentinel-filled caller buffers, tag variable and error values observed after each rejected open",
    text="Same sender/channel/receiver simulation as C02, observing the caller's message buffer and stream tag variable after every rejected delivery through a classic receiver: each byte must be its old value or zero, the tag variable must be untouched, and two rejections of the same fault kind and lengths must produce the same error value.",
    note="byte-wise 'unchanged or zero' is deliberately lenient so that partial wipes are not flagged; object-API receivers return only an error by type."),
- "C19": dict(cat="fault_enumeration", tech="deterministic simulation with injected lock refusals at the libc seam: for each seeded walk every refusal index k (refuse_from with EAGAIN/ENOMEM/EPERM, refuse_once, refuse_all_from) and every budget B is enumerated; a call that makes more than 100000 intercepted requests without returning is ended and reported (bounded progress)",
+ "C19": dict(cat="fault_enumeration", tech="deterministic simulation with injected lock refusals at the libc seam: for each seeded walk every refusal index k (refuse_from with EAGAIN/ENOMEM/EPERM, refuse_once, refuse_all_from) and every budget B is enumerated; a call that makes more than 100000 intercepted requests without returning is ended and reported (bounded progress); a quarter of the base walks run with standard error a broken pipe",
    text="For each sampled walk of the C14 workload the fault space is enumerated: refuse_from(k) and refuse_once(k) for every lock request k of the walk and budget(B) for every B up to its peak; every Result-returning event must return (no unwind, no dead worker), all other regions must still satisfy the C14 invariants, consumed regions must be released wiped, and the run must end with VmLck = 0.",
    note="refusals are injected instead of the system call (limit-check model); walks themselves are sampled; documented-to-panic operations (clone, resize, Default on locked types) are allowed to panic."),
 }
